@@ -223,3 +223,52 @@ Proof.
   - inversion H; subst. split; [simpl; lia|congruence].
   - apply Nat.eqb_neq in E. split; [eapply dec_data_loop_bound; eauto|lia].
 Qed.
+
+(* ---- C07 on well-formed messages: exactly one message per encoded data record ---- *)
+From GF Require Import Spec.EncNF Proofs.NFEnc.
+
+Definition adata_records (s : aset) : nat := match s with AData _ _ recs _ => length recs | _ => 0 end.
+Definition total_adata (sets : list aset) : nat := fold_right (fun s a => (adata_records s + a)%nat) 0%nat sets.
+
+Lemma data_records_of_sets ver sets :
+  length (data_records (map (flowset_of ver) sets)) = total_adata sets.
+Proof.
+  induction sets as [|s r IH]; [reflexivity|]. cbn [map total_adata fold_right]. unfold data_records in *. cbn [flat_map].
+  rewrite app_length, IH. f_equal.
+  destruct s as [ts|ts|id fs recs pad|id sc op recs pad]; cbn [flowset_of adata_records]; try reflexivity.
+  - destruct (ver =? 9); reflexivity.
+  - rewrite map_length. reflexivity.
+Qed.
+
+Lemma c07_exact_l cfg ss ip st m ms ss' :
+  wf_msg st m = true ->
+  (forall p tnf st', decode_nf st (encode_nf m) = Ok (p, tnf, st') -> produce_nf cfg ss ip p = (Ok ms, ss')) ->
+  length ms = total_adata (aSets m).
+Proof.
+  intros Hwf Hp. pose proof (c03_roundtrip_l st m Hwf) as Hd. specialize (Hp _ _ _ Hd).
+  apply produce_nf_count in Hp. rewrite Hp. unfold expected_pkt. cbn [pSets]. apply data_records_of_sets.
+Qed.
+
+(* ---- C11 at the level of one DecodeFlow call ---- *)
+Lemma stamp_keeps_rate tr sa m : mgetI (stamp_nf tr sa m) cSamplingRate = mgetI m cSamplingRate.
+Proof. reflexivity. Qed.
+
+Lemma nf_step_rate cfg st e tr d st' o ms ver d0 p tnf s1 ms0 ss' :
+  rd 2 d = Ok (ver, d0) -> (ver =? 5) = false -> (ver =? 9) || (ver =? 10) = true ->
+  decode_nf_body (tstores_get (psT st) (exp_id e)) ver d0 = Ok (p, tnf, s1) ->
+  produce_nf cfg (psS st) (addr_id (eAddr e)) p = (Ok ms0, ss') ->
+  nf_step cfg st e tr d = Ok (st', o, ms) ->
+  exists found rate,
+    find_sampling (optdata_records (pSets p)) 0 = Ok (found, rate) /\
+    Forall (fun m => mgetI m cSamplingRate =
+                     if found then rate else rate_of (psS st) (addr_id (eAddr e), pVer p, nf_dom (pVer p) (pHdr p))) ms /\
+    (forall k, rate_of (psS st') k =
+               if found && skey_eqb (addr_id (eAddr e), pVer p, nf_dom (pVer p) (pHdr p)) k then rate else rate_of (psS st) k).
+Proof.
+  intros Hr H5 H9 Hd Ep H. unfold nf_step in H. rewrite Hr, H5, H9, Hd, Ep in H.
+  inversion H; subst; clear H. cbn [psS].
+  destruct (produce_nf_rate cfg (psS st) (addr_id (eAddr e)) p ms0 ss' Ep) as (found & rate & Hf & Hall & Hk).
+  exists found, rate. split; [exact Hf|]. split; [|exact Hk].
+  apply Forall_forall. intros m Hm. apply in_map_iff in Hm. destruct Hm as (m0 & <- & Hin).
+  rewrite stamp_keeps_rate. rewrite Forall_forall in Hall. apply Hall. exact Hin.
+Qed.
